@@ -350,6 +350,6 @@ def run(ctx):
     # and Module.clone() keep them; simulated behaviours replayed without, explored transitions with state injection
     from .. import system
     system.simulate_and_replay(ctx, 120 if ctx.quick else 3000, 12 if ctx.quick else 18, nm=5, np_=1, focus="options")
-    system.graph_replay(ctx, ctx.quick, emitk=8 if ctx.quick else 1, focus="options")
+    system.graph_replay(ctx, ctx.quick, emitk=8 if ctx.quick else 6, focus="options")
     ctx.cov["traces_validated_against_impl"] = len(events)
     ctx.exhaustive = False
